@@ -164,7 +164,7 @@ def run_fuzz(pid, seed, cfg):
             os.makedirs(os.path.join(d, "corpus"))
             out = os.path.join(d, "out.json")
             cmd = [sys.executable, "-m", "vp_hg.fuzz.atheris_run", pid, out, f"-runs={cfg.get('runs', 50000)}", f"-seed={seed * 100 + i + 1}",
-                   f"-max_len={cfg.get('max_len', 4096)}", "-timeout=120", os.path.join(d, "corpus")]
+                   f"-max_len={cfg.get('max_len', 4096)}", "-timeout=120", f"-artifact_prefix={d}{os.sep}", os.path.join(d, "corpus")]
             procs.append((i, out, subprocess.Popen(cmd, cwd=VERIF, env=env, stdout=subprocess.DEVNULL, stderr=subprocess.DEVNULL)))
         results, evals, execs = [], 0, 0
         for i, out, pr in procs:
